@@ -101,7 +101,7 @@ func slowEvents(c *common.Ctx, n *cluster.Node, role string) {
 			line = line[:j]
 		}
 		c.Violate("C20:events:panic", "GET /events with a slow reader panicked inside the node: "+line, rep)
-	} else if timedOut {
+	} else if ne, ok := rerr.(net.Error); timedOut || (ok && ne.Timeout()) {
 		c.Count("events_slow_reader_inconclusive", 1) // the stream was still open after 20 s: nothing to judge
 	} else if rerr != nil {
 		c.Violate("C20:events:incomplete", fmt.Sprintf("GET /events with a slow reader did not end with a complete response: %v", rerr), rep)
